@@ -39,7 +39,7 @@ def loops_of(events: List[Event]) -> List[LoopSummary]:
 
 
 def calls_named(events: List[Event], bare: str) -> List[Event]:
-    return [e for e in events if e.kind == "call" and e.name and e.name.split(":")[-1] == bare]
+    return [e for e in events if e.kind == "call" and e.name and (e.name.split(":")[-1] == bare or e.name.split(":")[-1].split(".")[-1] == bare)]
 
 
 class BCAnalysis:
